@@ -113,6 +113,26 @@ def check_syntax_fault(run, texts, err_at, text, lines):
     return False
 
 
+# messages of the parser's checks that depend on the syntax tree built so far (not on the next token): the
+# automaton resolves them as `choice` or not at all
+DATA_DEPENDENT = ("Destructuring assign expected", "Cannot assign to system variable", "Invalid pattern",
+                  "Rest argument", "Spread operator only allowed", "Invalid int literal", "Cannot redefine keyword")
+
+
+def error_token_one_line(texts):
+    """(1-based index of the token a syntax error of the one-line rendering points at, message); index None:
+    no error, no position, not on line 1, or not at the start of a token"""
+    try:
+        parse_script(" ".join(texts), FNAME)
+    except CklSyntaxError as e:
+        if e.pos is None or not hasattr(e.pos, "line") or e.pos.line != 1:
+            return None, str(e.msg)
+        return c01.col_to_index(texts).get(e.pos.column), str(e.msg)
+    except Exception:  # noqa: BLE001
+        return None, ""
+    return None, ""
+
+
 # --------------------------------------------------------- (iii) runtime faults
 # token text, role.  roles: P = error position, A = acceptable alternative
 # (first token of the construct), S0/S1 = stack-trace entries innermost first,
@@ -277,6 +297,15 @@ def run(run):
     nsyn = 0
     for key, err_at in faults[: (2500 if quick else 60000)]:
         texts = [c01.tok_text({"ty": ty, "v": v}) for ty, v in key]
+        # which token the error names is read off the one-line rendering, where line 1 / column identify a token
+        # without ambiguity; the automaton's errAt does not model the data-dependent checks of the parser
+        # (`[ break ] = while` is rejected for its target list, which begins at `[`, before `while` is looked at)
+        named, msg = error_token_one_line(texts)
+        if named is not None and named != err_at:
+            run.drift("syntax-fault-token-differs-from-automaton", {"text": " ".join(texts), "pda": err_at, "code": named, "msg": msg[:50]})
+            if msg.startswith(DATA_DEPENDENT):
+                err_at = named           # a check the automaton does not model: the code's own token stands
+            # any other disagreement keeps the automaton's token: the layouts below then show a wrong line
         for _ in range(2 if quick else 4):
             text, lines = layout(rng, texts)
             nsyn += check_syntax_fault(run, texts, err_at, text, lines)
